@@ -117,6 +117,8 @@ func InteropCorpus(variant int) *ir.Request {
 		// the descriptor's JSON names, which is what every generated client and server must read
 		{Name: "AliasGetReq", Fields: []*ir.Field{{Name: "user_id", Number: 1, Kind: "string", JSONName: "uid"},
 			{Name: "page_size", Number: 2, Kind: "int32", JSONName: "ps", Ann: q("page_size")}}},
+		// the singular REST shape: a literal segment spelled like the variable that follows it
+		{Name: "MemberReq", Fields: []*ir.Field{{Name: "org", Number: 1, Kind: "string"}, {Name: "member", Number: 2, Kind: "string"}, {Name: "title", Number: 3, Kind: "string"}}},
 		{Name: "AliasPutReq", Fields: []*ir.Field{{Name: "user_id", Number: 1, Kind: "string", JSONName: "uid"},
 			{Name: "display_name", Number: 2, Kind: "string", JSONName: "label"}, {Name: "big_total", Number: 3, Kind: "int64", JSONName: "total"}}},
 	}
@@ -131,6 +133,7 @@ func InteropCorpus(variant int) *ir.Request {
 			{Name: "DelTag", Input: P + "DelTagReq", Output: P + "Reply", Config: &ir.HTTPConfig{Path: "/items/{item_id}/tags/{name}", Method: "DELETE"},
 				Headers: []ir.Header{{Name: "X-When", Type: "string", Format: "date-time"}}},
 			{Name: "PutThing", Input: P + "PutReq", Output: P + "Reply", Config: &ir.HTTPConfig{Path: "/{flag}/things/{ratio}", Method: "PUT"}},
+			{Name: "PutMember", Input: P + "MemberReq", Output: P + "Reply", Config: &ir.HTTPConfig{Path: "/org/{org}/member/{member}", Method: "PUT"}},
 		}}
 	aux := &ir.Service{Name: "Aux", BasePath: "/aux",
 		Headers: []ir.Header{{Name: "Authorization", Type: "string", Required: true}},
